@@ -1,4 +1,5 @@
 """C03 — topics are isolated and senders do not hear themselves"""
+from lagcommon import LagMode, LAG_RULE
 from hubcommon import HubMode, PathMode
 
 RULE = ("hub mode: event histories (register with topic/booking/scopes/buffer 1..8, inbound from members and non-members, drain at "
@@ -13,9 +14,11 @@ THEOREMS = [("Hub.isolation", "Relay.Props.C03"), ("Hub.no_echo", "Relay.Props.C
             ("Hub.offer_eq", "Relay.Props.C03"), ("Hub.deliver_iff", "Relay.Props.C03"), ("Hub.dropped_iff", "Relay.Props.C03"),
             ("Hub.untouched_iff", "Relay.Props.C03"), ("Hub.broadcast_members_sub", "Relay.Props.C03"),
             ("Hub.unjoined_never_relays", "Relay.Props.C03"), ("Hub.run_inv", "Relay.Props.HubInv"),
-            ("Path.topic_chars", "Relay.Props.C03")]
+            ("Path.topic_chars", "Relay.Props.C03"), ("Hub.frames_are_fresh_slices", "Relay.Props.C05")]
 OPTIONAL_EXPORTS = ()
+RULE = RULE + LAG_RULE
+
 
 
 def modes(tier):
-    return [HubMode("C03"), PathMode()]
+    return [HubMode("C03"), PathMode(), LagMode("C03")]
